@@ -1,9 +1,13 @@
 #!/bin/bash
-# usage: try_patch.sh <patch.diff> <Cxx> [tier]   -- applies the patch to /repo, runs the check, reverts /repo
+# usage: try_patch.sh <patch.diff> <Cxx> [tier] -- applies the patch to a scratch worktree of /repo (/tmp/wt/eval),
+# runs the check against it (ACRYO_REPO), reverts; then the caller should re-run the clean check to restore evidence.
 set -u
 P="$1"; PID="$2"; TIER="${3:-quick}"
-cd /repo || exit 2
-if [ -n "$(git status --porcelain)" ]; then echo "repo not clean"; exit 2; fi
+W=/tmp/wt/eval
+[ -d "$W" ] || git -C /repo worktree add -q --detach "$W" HEAD
+cd "$W" || exit 2
+git checkout -q --detach "$(git -C /repo rev-parse HEAD)" 2>/dev/null
+git checkout -- . ; 
 git apply "$P" || { echo "patch does not apply"; exit 2; }
-cd /verif && timeout 2400 ./check "$PID" "$TIER" 2>&1 | grep -E "VIOLATION|done|BROKEN|CORR .*disagree|KNOWN" | cut -c1-260
-cd /repo && git checkout -- . && git status --short
+cd /verif && ACRYO_REPO="$W" timeout 2400 ./check "$PID" "$TIER" 2>&1 | grep -E "VIOLATION|done|BROKEN|CORR .*disagree|KNOWN" | cut -c1-260
+cd "$W" && git checkout -- .
